@@ -305,6 +305,10 @@ def run_check(prop, tier, seed, replay=None):
 
     if replay:
         doc = json.load(open(replay))
+        if not doc.get("case"):
+            # a broken obligation / tie without a failing input: replaying it = running the check again
+            replay = None
+    if replay:
         cases = [E.Case("replay", doc.get("case") or [])]
     else:
         cases = load_corpus(prop.id)
